@@ -104,10 +104,12 @@ class Table(dict):
             buffer_df.drop_duplicates(subset=self.idx_cols, keep='last', inplace=True)
             buffer_df = self._create_index_from_cols(buffer_df, self.idx_cols)
 
-            # Update existing rows and append new rows
+            # A buffered row replaces the stored row of its key, new keys are added.
+            # (Assigning through .loc refused a real written into an integer column and,
+            # the buffer never being cleared, left the table unreadable for good; concat
+            # widens the column as the unindexed path does.)
             common_idx = self._df.index.intersection(buffer_df.index)
-            self._df.loc[common_idx] = buffer_df.loc[common_idx]
-            self._df = pd.concat([self._df, buffer_df.loc[~buffer_df.index.isin(common_idx)]])
+            self._df = pd.concat([self._df.drop(index=common_idx), buffer_df])
             self._df.sort_index(inplace=True)
         else:
             values = np.concatenate([self._df.values] + [y.reshape(1, -1) for y in self.buffer])
